@@ -67,6 +67,21 @@ CHECKS = {
             "All 35 keywords/aliases on both bases on data sets with different grids and component sets: set of files created, row/column labels, values x unit factor, alias identity, availability, file-name and unit overrides.",
             "Trusted: the frozen rule table is the documentation as of the pinned commit; printed precision 15 digits.",
             "DESIGN.md section 4 C15"),
+    "C11": ("model_checking",
+            "TLC explores all (method, order, nv) calls with the documented admissibility and node-subsampling rule, derives the exact (omega, gamma, V dgamma/dV) triples of test polynomials symbolically (Poly!Deriv) and the plot table (spec/Interp.tla, C11.tla); every admissible call replayed through interpolate_modes; ModePlotter with recording axes",
+            "All 335 admissible calls for nv in 4..12 are replayed on power-law tables with pairwise distinct exponents per (q,m), on polynomial tables up to the call's exactness degree and on generic tables (consistency of the returned triple); the plot mapping is checked for n=0,1,2.",
+            "Trusted: scipy interpolators; per-method tolerances (Lagrange in the monomial basis loses ~1e-5 with six nodes); finite-difference consistency tolerances.",
+            "DESIGN.md section 4 C11"),
+    "C12": ("model_checking",
+            "TLC enumerates the space of valid configurations (spec/ConfigSpace.tla over Interp!Adm, 10 560 states) and checks the IEEE class transfer of the Bose factors (spec/FloatClass.tla); a stratified sample of the enumerated configurations is concretised and run, finiteness/realness/T=0 clauses observed on the results",
+            "The configuration space is a TLC-enumerated set rather than three example files; every interpolator, system and T_MIN class is present in each run (48 quick / 1500 thorough configurations); results are checked for dtype, finiteness of isothermal moduli everywhere, adiabatic where C_V>0, averages where positive definite, exact zero gap at T=0 and c(T)->c(0).",
+            "Finiteness is a floating-point observation; the specification enumerates where to look and predicts the Bose classes. Sampled, not exhaustive, at the implementation level.",
+            "DESIGN.md section 4 C12"),
+    "C13": ("model_checking",
+            "TLC checks that every sequence of <= 4 re-presentation actions leaves the order-free denotation unchanged and that wrong actions change it (spec/Presentation.tla); simulated action sequences applied to synthetic file triples and all results compared with the baseline presentation",
+            "Model: 1901 presentation states with the denotation invariant. Implementation: each simulated sequence (and every single action) is applied to data sets with and without crystal system; moduli, averages, velocities and volumes must agree to 1e-7 of scale; re-ordered volume blocks must give the same results or an error.",
+            "Trusted: Gamma-point modes are permuted among non-acoustic slots only; comparison tolerance 1e-7 (summation order).",
+            "DESIGN.md section 4 C13"),
 }
 
 NOT_YET = {
